@@ -29,13 +29,13 @@ type tree07 struct {
 
 // ---------- document generation ----------
 
-type kdoc struct {
+type c07Kdoc struct {
 	api, kind string
-	body      func(g *bgen, name string) string // YAML below metadata (top-level keys), may be ""
+	body      func(g *c07Bgen, name string) string // YAML below metadata (top-level keys), may be ""
 	clusterSc bool
 }
 
-type bgen struct {
+type c07Bgen struct {
 	rng      *Rng
 	n        int
 	forceTag bool // every resource name of the layer being generated carries the layer tag
@@ -51,19 +51,19 @@ var c07Scalars = []string{
 	strings.Repeat("long-", 30) + "end", strings.Repeat("w ", 60) + "end", "a b", "nul-like\\0", "cr\rhere", "a b", "é",
 }
 
-func (g *bgen) scalar() string {
+func (g *c07Bgen) scalar() string {
 	if g.rng.Chance(45) {
 		return g.rng.Pick([]string{"v", "a", "b", "hello", "1", "x"})
 	}
 	return g.rng.Pick(c07Scalars)
 }
 
-func yq(s string) string { // a YAML double-quoted scalar (JSON string syntax is valid YAML)
+func c07Yq(s string) string { // a YAML double-quoted scalar (JSON string syntax is valid YAML)
 	b, _ := json.Marshal(s)
 	return string(b)
 }
 
-func (g *bgen) dataBlock(key string) string {
+func (g *c07Bgen) dataBlock(key string) string {
 	n := 1 + g.rng.Intn(3)
 	var b strings.Builder
 	b.WriteString(key + ":\n")
@@ -74,16 +74,16 @@ func (g *bgen) dataBlock(key string) string {
 			continue
 		}
 		used[k] = true
-		fmt.Fprintf(&b, "  %s: %s\n", yq(k), yq(g.scalar()))
+		fmt.Fprintf(&b, "  %s: %s\n", c07Yq(k), c07Yq(g.scalar()))
 	}
 	return b.String()
 }
 
-func podSpec(g *bgen, indent string) string {
+func c07PodSpec(g *c07Bgen, indent string) string {
 	img := g.rng.Pick([]string{"nginx", "nginx:1.2", "busybox@sha256:abc", "reg.io:5000/app:v1"})
 	s := indent + "containers:\n" + indent + "- name: c\n" + indent + "  image: " + img + "\n"
 	if g.rng.Chance(30) {
-		s += indent + "  env:\n" + indent + "  - name: E\n" + indent + "    value: " + yq(g.scalar()) + "\n"
+		s += indent + "  env:\n" + indent + "  - name: E\n" + indent + "    value: " + c07Yq(g.scalar()) + "\n"
 	}
 	if g.rng.Chance(25) {
 		s += indent + "  envFrom:\n" + indent + "  - configMapRef:\n" + indent + "      name: " + g.rng.Pick([]string{"cm1", "gcm"}) + "\n"
@@ -94,71 +94,71 @@ func podSpec(g *bgen, indent string) string {
 	return s
 }
 
-func workload(g *bgen, name string) string {
+func c07Workload(g *c07Bgen, name string) string {
 	r := ""
 	if g.rng.Chance(60) {
 		r = fmt.Sprintf("  replicas: %d\n", 1+g.rng.Intn(3))
 	}
 	return "spec:\n" + r + "  selector:\n    matchLabels:\n      app: " + name + "\n  template:\n    metadata:\n      labels:\n        app: " + name +
-		"\n    spec:\n" + podSpec(g, "      ")
+		"\n    spec:\n" + c07PodSpec(g, "      ")
 }
 
-var c07DocKinds = []kdoc{
-	{"v1", "ConfigMap", func(g *bgen, n string) string { return g.dataBlock("data") }, false},
-	{"v1", "ConfigMap", func(g *bgen, n string) string { return g.dataBlock("data") }, false},
-	{"v1", "Secret", func(g *bgen, n string) string { return "type: Opaque\n" + g.dataBlock("stringData") }, false},
-	{"apps/v1", "Deployment", workload, false},
-	{"apps/v1", "Deployment", workload, false},
-	{"apps/v1", "StatefulSet", func(g *bgen, n string) string { return workload(g, n) + "  serviceName: " + n + "\n" }, false},
-	{"apps/v1", "DaemonSet", workload, false},
-	{"v1", "Service", func(g *bgen, n string) string {
+var c07DocKinds = []c07Kdoc{
+	{"v1", "ConfigMap", func(g *c07Bgen, n string) string { return g.dataBlock("data") }, false},
+	{"v1", "ConfigMap", func(g *c07Bgen, n string) string { return g.dataBlock("data") }, false},
+	{"v1", "Secret", func(g *c07Bgen, n string) string { return "type: Opaque\n" + g.dataBlock("stringData") }, false},
+	{"apps/v1", "Deployment", c07Workload, false},
+	{"apps/v1", "Deployment", c07Workload, false},
+	{"apps/v1", "StatefulSet", func(g *c07Bgen, n string) string { return c07Workload(g, n) + "  serviceName: " + n + "\n" }, false},
+	{"apps/v1", "DaemonSet", c07Workload, false},
+	{"v1", "Service", func(g *c07Bgen, n string) string {
 		return "spec:\n  selector:\n    app: " + n + "\n  ports:\n  - port: 80\n    targetPort: 8080\n"
 	}, false},
-	{"v1", "ServiceAccount", func(g *bgen, n string) string { return "" }, false},
-	{"v1", "Namespace", func(g *bgen, n string) string { return "" }, true},
-	{"rbac.authorization.k8s.io/v1", "Role", func(g *bgen, n string) string {
+	{"v1", "ServiceAccount", func(g *c07Bgen, n string) string { return "" }, false},
+	{"v1", "Namespace", func(g *c07Bgen, n string) string { return "" }, true},
+	{"rbac.authorization.k8s.io/v1", "Role", func(g *c07Bgen, n string) string {
 		return "rules:\n- apiGroups: [\"\"]\n  resources: [\"configmaps\"]\n  verbs: [\"get\"]\n"
 	}, false},
-	{"rbac.authorization.k8s.io/v1", "ClusterRole", func(g *bgen, n string) string {
+	{"rbac.authorization.k8s.io/v1", "ClusterRole", func(g *c07Bgen, n string) string {
 		return "rules:\n- apiGroups: [\"\"]\n  resources: [\"pods\"]\n  verbs: [\"list\"]\n"
 	}, true},
-	{"rbac.authorization.k8s.io/v1", "RoleBinding", func(g *bgen, n string) string {
+	{"rbac.authorization.k8s.io/v1", "RoleBinding", func(g *c07Bgen, n string) string {
 		return "roleRef:\n  apiGroup: rbac.authorization.k8s.io\n  kind: Role\n  name: role1\nsubjects:\n- kind: ServiceAccount\n  name: sa1\n  namespace: " +
 			g.rng.Pick([]string{"default", "ns1"}) + "\n"
 	}, false},
-	{"rbac.authorization.k8s.io/v1", "ClusterRoleBinding", func(g *bgen, n string) string {
+	{"rbac.authorization.k8s.io/v1", "ClusterRoleBinding", func(g *c07Bgen, n string) string {
 		return "roleRef:\n  apiGroup: rbac.authorization.k8s.io\n  kind: ClusterRole\n  name: cr1\nsubjects:\n- kind: ServiceAccount\n  name: sa1\n  namespace: default\n"
 	}, true},
-	{"batch/v1", "Job", func(g *bgen, n string) string {
-		return "spec:\n  template:\n    spec:\n      restartPolicy: Never\n" + podSpec(g, "      ")
+	{"batch/v1", "Job", func(g *c07Bgen, n string) string {
+		return "spec:\n  template:\n    spec:\n      restartPolicy: Never\n" + c07PodSpec(g, "      ")
 	}, false},
-	{"batch/v1", "CronJob", func(g *bgen, n string) string {
-		return "spec:\n  schedule: \"*/5 * * * *\"\n  jobTemplate:\n    spec:\n      template:\n        spec:\n          restartPolicy: Never\n" + podSpec(g, "          ")
+	{"batch/v1", "CronJob", func(g *c07Bgen, n string) string {
+		return "spec:\n  schedule: \"*/5 * * * *\"\n  jobTemplate:\n    spec:\n      template:\n        spec:\n          restartPolicy: Never\n" + c07PodSpec(g, "          ")
 	}, false},
-	{"networking.k8s.io/v1", "Ingress", func(g *bgen, n string) string {
+	{"networking.k8s.io/v1", "Ingress", func(g *c07Bgen, n string) string {
 		return "spec:\n  rules:\n  - host: a.example.com\n    http:\n      paths:\n      - path: /\n        pathType: Prefix\n        backend:\n          service:\n            name: svc1\n            port:\n              number: 80\n"
 	}, false},
-	{"v1", "PersistentVolumeClaim", func(g *bgen, n string) string {
+	{"v1", "PersistentVolumeClaim", func(g *c07Bgen, n string) string {
 		return "spec:\n  accessModes: [ReadWriteOnce]\n  resources:\n    requests:\n      storage: 1Gi\n"
 	}, false},
-	{"autoscaling/v2", "HorizontalPodAutoscaler", func(g *bgen, n string) string {
+	{"autoscaling/v2", "HorizontalPodAutoscaler", func(g *c07Bgen, n string) string {
 		return "spec:\n  minReplicas: 1\n  maxReplicas: 3\n  scaleTargetRef:\n    apiVersion: apps/v1\n    kind: Deployment\n    name: dep1\n"
 	}, false},
-	{"policy/v1", "PodDisruptionBudget", func(g *bgen, n string) string {
+	{"policy/v1", "PodDisruptionBudget", func(g *c07Bgen, n string) string {
 		return "spec:\n  minAvailable: 1\n  selector:\n    matchLabels:\n      app: " + n + "\n"
 	}, false},
-	{"storage.k8s.io/v1", "StorageClass", func(g *bgen, n string) string { return "provisioner: example.com/p\n" }, true},
-	{"example.com/v1", "Widget", func(g *bgen, n string) string {
-		return "spec:\n  size: " + yq(g.scalar()) + "\n  count: " + g.rng.Pick([]string{"1", "0", "-3", "1.5", "true", "null", "1e3", "0x10", "010"}) + "\n"
+	{"storage.k8s.io/v1", "StorageClass", func(g *c07Bgen, n string) string { return "provisioner: example.com/p\n" }, true},
+	{"example.com/v1", "Widget", func(g *c07Bgen, n string) string {
+		return "spec:\n  size: " + c07Yq(g.scalar()) + "\n  count: " + g.rng.Pick([]string{"1", "0", "-3", "1.5", "true", "null", "1e3", "0x10", "010"}) + "\n"
 	}, false},
-	{"example.com/v1", "Widget", func(g *bgen, n string) string {
-		return "spec:\n  items:\n  - " + yq(g.scalar()) + "\n  - " + yq(g.scalar()) + "\n  nested:\n    deep:\n      value: " + yq(g.scalar()) + "\n  emptyMap: {}\n  emptyList: []\n"
+	{"example.com/v1", "Widget", func(g *c07Bgen, n string) string {
+		return "spec:\n  items:\n  - " + c07Yq(g.scalar()) + "\n  - " + c07Yq(g.scalar()) + "\n  nested:\n    deep:\n      value: " + c07Yq(g.scalar()) + "\n  emptyMap: {}\n  emptyList: []\n"
 	}, false},
-	{"admissionregistration.k8s.io/v1", "ValidatingWebhookConfiguration", func(g *bgen, n string) string { return "webhooks: []\n" }, true},
+	{"admissionregistration.k8s.io/v1", "ValidatingWebhookConfiguration", func(g *c07Bgen, n string) string { return "webhooks: []\n" }, true},
 }
 
 // names per kind prefix so that references (cm1, sa1, role1, svc1, dep1) resolve
-func shortKind(k string) string {
+func c07ShortKind(k string) string {
 	switch k {
 	case "ConfigMap":
 		return "cm"
@@ -180,13 +180,13 @@ func shortKind(k string) string {
 	return strings.ToLower(k[:3])
 }
 
-type docInfo struct {
+type c07DocInfo struct {
 	api, kind, name, ns string
 }
 
-func (g *bgen) doc(layerTag string, used map[string]bool) (string, *docInfo) {
+func (g *c07Bgen) doc(layerTag string, used map[string]bool) (string, *c07DocInfo) {
 	k := c07DocKinds[g.rng.Intn(len(c07DocKinds))]
-	name := fmt.Sprintf("%s%d", shortKind(k.kind), 1+g.rng.Intn(2))
+	name := fmt.Sprintf("%s%d", c07ShortKind(k.kind), 1+g.rng.Intn(2))
 	if g.forceTag || g.rng.Chance(25) {
 		name += layerTag
 	}
@@ -206,7 +206,7 @@ func (g *bgen) doc(layerTag string, used map[string]bool) (string, *docInfo) {
 	}
 	if g.rng.Chance(30) {
 		b.WriteString("  labels:\n")
-		fmt.Fprintf(&b, "    tier: %s\n", yq(g.rng.Pick([]string{"web", "db", "yes", "1", "true", "a.b-c_d"})))
+		fmt.Fprintf(&b, "    tier: %s\n", c07Yq(g.rng.Pick([]string{"web", "db", "yes", "1", "true", "a.b-c_d"})))
 	}
 	if g.rng.Chance(35) {
 		b.WriteString("  annotations:\n")
@@ -226,23 +226,23 @@ func (g *bgen) doc(layerTag string, used map[string]bool) (string, *docInfo) {
 			case "config.kubernetes.io/origin":
 				av = "path: somewhere.yaml\n"
 			}
-			fmt.Fprintf(&b, "    %s: %s\n", ak, yq(av))
+			fmt.Fprintf(&b, "    %s: %s\n", ak, c07Yq(av))
 		}
 	}
 	b.WriteString(k.body(g, name))
-	return b.String(), &docInfo{k.api, k.kind, name, ns}
+	return b.String(), &c07DocInfo{k.api, k.kind, name, ns}
 }
 
 // ---------- kustomization generation ----------
 
 type layer07 struct {
 	dir   string
-	docs  []*docInfo // resources defined in this layer's own files
-	gens  []string   // names of configMapGenerator entries
+	docs  []*c07DocInfo // resources defined in this layer's own files
+	gens  []string      // names of configMapGenerator entries
 	sgens []string
 }
 
-func (g *bgen) layer(t *tree07, dir, tag string, bases []*layer07, top bool) *layer07 {
+func (g *c07Bgen) layer(t *tree07, dir, tag string, bases []*layer07, top bool) *layer07 {
 	l := &layer07{dir: dir}
 	var k strings.Builder
 	k.WriteString("apiVersion: kustomize.config.k8s.io/v1beta1\nkind: Kustomization\n")
@@ -277,7 +277,7 @@ func (g *bgen) layer(t *tree07, dir, tag string, bases []*layer07, top bool) *la
 			fb.WriteString("---\n---\n") // empty documents
 		case 1:
 			// a List with items: inlined by the loader
-			fmt.Fprintf(&fb, "---\napiVersion: v1\nkind: ConfigMapList\nitems:\n- apiVersion: v1\n  kind: ConfigMap\n  metadata:\n    name: li%s%d\n  data:\n    a: %s\n", tag, f, yq(g.scalar()))
+			fmt.Fprintf(&fb, "---\napiVersion: v1\nkind: ConfigMapList\nitems:\n- apiVersion: v1\n  kind: ConfigMap\n  metadata:\n    name: li%s%d\n  data:\n    a: %s\n", tag, f, c07Yq(g.scalar()))
 		case 2:
 			// a nameless List kind without items: passes validation (name not required) and is emitted as is
 			fmt.Fprintf(&fb, "---\napiVersion: example.com/v1\nkind: WidgetList\nmetadata:\n  labels:\n    l: %s%d\n", tag, f)
@@ -295,20 +295,20 @@ func (g *bgen) layer(t *tree07, dir, tag string, bases []*layer07, top bool) *la
 		}
 	}
 	if g.rng.Chance(35) {
-		k.WriteString("namePrefix: " + yq(g.rng.Pick([]string{"p-", tag + "-", "x"})) + "\n")
+		k.WriteString("namePrefix: " + c07Yq(g.rng.Pick([]string{"p-", tag + "-", "x"})) + "\n")
 	}
 	if g.rng.Chance(25) {
-		k.WriteString("nameSuffix: " + yq(g.rng.Pick([]string{"-s", "-" + tag, "y"})) + "\n")
+		k.WriteString("nameSuffix: " + c07Yq(g.rng.Pick([]string{"-s", "-" + tag, "y"})) + "\n")
 	}
 	if g.rng.Chance(30) {
 		k.WriteString("namespace: " + g.rng.Pick([]string{"ns1", "prod", "default"}) + "\n")
 	}
 	if g.rng.Chance(35) {
-		k.WriteString("labels:\n- pairs:\n    team: " + yq(g.rng.Pick([]string{"a", "true", "yes", "1"})) + "\n  includeSelectors: " + g.rng.Pick([]string{"true", "false"}) +
+		k.WriteString("labels:\n- pairs:\n    team: " + c07Yq(g.rng.Pick([]string{"a", "true", "yes", "1"})) + "\n  includeSelectors: " + g.rng.Pick([]string{"true", "false"}) +
 			"\n  includeTemplates: " + g.rng.Pick([]string{"true", "false"}) + "\n")
 	}
 	if g.rng.Chance(25) {
-		k.WriteString("commonAnnotations:\n  ca: " + yq(g.scalar()) + "\n")
+		k.WriteString("commonAnnotations:\n  ca: " + c07Yq(g.scalar()) + "\n")
 	}
 	// generators
 	ng := g.rng.Intn(3)
@@ -364,7 +364,7 @@ func (g *bgen) layer(t *tree07, dir, tag string, bases []*layer07, top bool) *la
 		}
 	}
 	// everything this layer can see (own docs and the docs of its bases), for targeting
-	visible := append([]*docInfo{}, l.docs...)
+	visible := append([]*c07DocInfo{}, l.docs...)
 	for _, b := range bases {
 		visible = append(visible, b.docs...)
 	}
@@ -377,15 +377,15 @@ func (g *bgen) layer(t *tree07, dir, tag string, bases []*layer07, top bool) *la
 			if g.rng.Chance(60) {
 				// strategic merge patch, inline, by kind+name target
 				fmt.Fprintf(&k, "- target:\n    kind: %s\n    name: %s\n  patch: |-\n    apiVersion: %s\n    kind: %s\n    metadata:\n      name: ignored\n      labels:\n        patched: %s\n",
-					tg.kind, tg.name, tg.api, tg.kind, yq(g.rng.Pick([]string{"yes", "1", "p"})))
+					tg.kind, tg.name, tg.api, tg.kind, c07Yq(g.rng.Pick([]string{"yes", "1", "p"})))
 			} else {
 				fmt.Fprintf(&k, "- target:\n    kind: %s\n  patch: |-\n    - op: add\n      path: /metadata/annotations\n      value:\n        jp: %s\n",
-					tg.kind, yq(g.scalar()))
+					tg.kind, c07Yq(g.scalar()))
 			}
 		}
 	}
 	if g.rng.Chance(25) {
-		k.WriteString("images:\n- name: nginx\n  newTag: " + yq(g.rng.Pick([]string{"1.21", "latest", "1e3", "007"})) + "\n")
+		k.WriteString("images:\n- name: nginx\n  newTag: " + c07Yq(g.rng.Pick([]string{"1.21", "latest", "1e3", "007"})) + "\n")
 	}
 	hasDep1 := false
 	for _, d := range visible {
@@ -428,7 +428,7 @@ func (g *bgen) layer(t *tree07, dir, tag string, bases []*layer07, top bool) *la
 }
 
 func genTree07(rng *Rng) tree07 {
-	g := &bgen{rng: rng}
+	g := &c07Bgen{rng: rng}
 	t := tree07{Files: map[string]string{}}
 	switch rng.Intn(4) {
 	case 0:
@@ -459,7 +459,7 @@ func genTree07(rng *Rng) tree07 {
 			b2 = &layer07{dir: "/base2"}
 			t.Files["/base2/kustomization.yaml"] = "resources:\n- only.yaml\n"
 			t.Files["/base2/only.yaml"] = "apiVersion: v1\nkind: ConfigMap\nmetadata:\n  name: onlyc\ndata:\n  a: b\n"
-			b2.docs = []*docInfo{{"v1", "ConfigMap", "onlyc", ""}}
+			b2.docs = []*c07DocInfo{{"v1", "ConfigMap", "onlyc", ""}}
 		}
 		g.forceTag = false
 		g.layer(&t, "/top", "t", []*layer07{b1, b2}, true)
@@ -471,7 +471,7 @@ func genTree07(rng *Rng) tree07 {
 
 // ---------- running a build ----------
 
-func runKrusty(files map[string]string, dir string, reorder string) (m resmap.ResMap, cls string, msg string) {
+func c07RunKrusty(files map[string]string, dir string, reorder string) (m resmap.ResMap, cls string, msg string) {
 	fs := filesys.MakeFsInMemory()
 	for p, c := range files {
 		if err := fs.WriteFile(p, []byte(c)); err != nil {
@@ -493,20 +493,20 @@ func runKrusty(files map[string]string, dir string, reorder string) (m resmap.Re
 	return m, cls, msg
 }
 
-type kustMeta struct {
+type c07KustMeta struct {
 	BuildMetadata []string `json:"buildMetadata"`
 	SortOptions   *struct {
 		Order string `json:"order"`
 	} `json:"sortOptions"`
 }
 
-func topMeta(t tree07) kustMeta {
-	var km kustMeta
+func c07TopMeta(t tree07) c07KustMeta {
+	var km c07KustMeta
 	_ = yaml.Unmarshal([]byte(t.Files[t.Dir+"/kustomization.yaml"]), &km)
 	return km
 }
 
-func canonJSON(b []byte) (interface{}, error) {
+func c07CanonJSON(b []byte) (interface{}, error) {
 	var v interface{}
 	d := json.NewDecoder(bytes.NewReader(b))
 	d.UseNumber()
@@ -516,8 +516,8 @@ func canonJSON(b []byte) (interface{}, error) {
 	return v, nil
 }
 
-// splitDocs splits the stream written by ResMap.AsYaml at its "---\n" separator lines.
-func splitDocs(b []byte) []string {
+// c07SplitDocs splits the stream written by ResMap.AsYaml at its "---\n" separator lines.
+func c07SplitDocs(b []byte) []string {
 	if len(b) == 0 {
 		return nil
 	}
@@ -535,7 +535,7 @@ func splitDocs(b []byte) []string {
 	return docs
 }
 
-func isLocalCfg(r *resource.Resource) bool {
+func c07IsLocalCfg(r *resource.Resource) bool {
 	v, ok := r.GetAnnotations()[c07LocalCfg]
 	return ok && v != "false"
 }
@@ -547,19 +547,19 @@ func checkBuild07(r *Run, t tree07, verbose bool) string {
 		r.Violation(OracleViolation{Law: law, Class: cls, Detail: detail, Replay: t})
 		fmt.Fprintf(&log, "LAW %s [%s]: %s\n", law, cls, detail)
 	}
-	m, cls, msg := runKrusty(t.Files, t.Dir, t.Reorder)
+	m, cls, msg := c07RunKrusty(t.Files, t.Dir, t.Reorder)
 	r.Count("build_class", cls)
 	fmt.Fprintf(&log, "build: %s %s\n", cls, msg)
 	if cls != ClsOk {
 		if cls == ClsPanic {
-			r.Count("build_panic", firstLine(msg))
+			r.Count("build_panic", c07FirstLine(msg))
 		} else {
-			r.Count("build_err", errKind(msg))
+			r.Count("build_err", c07ErrKind(msg))
 		}
 		r.AddEval(fmt.Sprint(t.Files), false)
 		return log.String()
 	}
-	km := topMeta(t)
+	km := c07TopMeta(t)
 	// effective order: the kustomization's sortOptions win over the option; without either nothing is sorted
 	fifo := true
 	if km.SortOptions != nil {
@@ -567,9 +567,9 @@ func checkBuild07(r *Run, t tree07, verbose bool) string {
 	} else if t.Reorder == "legacy" || t.Reorder == "unspecified" {
 		fifo = false
 	}
-	wantOrigin, wantTransf := strIn("originAnnotations", km.BuildMetadata), strIn("transformerAnnotations", km.BuildMetadata)
+	wantOrigin, wantTransf := c07StrIn("originAnnotations", km.BuildMetadata), c07StrIn("transformerAnnotations", km.BuildMetadata)
 	rs := m.Resources()
-	r.Count("out_docs", bucket(len(rs)))
+	r.Count("out_docs", c07Bucket(len(rs)))
 	r.Count("order", map[bool]string{true: "fifo", false: "legacy"}[fifo])
 	r.Count("buildMetadata", strings.Join(km.BuildMetadata, "+"))
 	out, err := m.AsYaml()
@@ -601,7 +601,7 @@ func checkBuild07(r *Run, t tree07, verbose bool) string {
 			a, b := rs[i], rs[j]
 			sameRaw := a.GetApiVersion() == b.GetApiVersion() && a.GetKind() == b.GetKind() && a.GetName() == b.GetName() && a.GetNamespace() == b.GetNamespace()
 			if sameRaw || a.CurId().Equals(b.CurId()) {
-				if fifo && (isLocalCfg(a) || isLocalCfg(b)) {
+				if fifo && (c07IsLocalCfg(a) || c07IsLocalCfg(b)) {
 					dupLocal = true
 					report("ids_unique", "C07/ids_unique/unsorted-localconfig-hash-collision",
 						fmt.Sprintf("documents %d and %d share the id %s (one of them is marked local-config; the output is not re-sorted)", i, j, a.CurId()))
@@ -620,7 +620,7 @@ func checkBuild07(r *Run, t tree07, verbose bool) string {
 		bm = append(bm, "transformerAnnotations")
 	}
 	for i, x := range rs {
-		if bad := internalKeysPresent(x.GetAnnotations(), bm); len(bad) > 0 {
+		if bad := c07InternalKeysPresent(x.GetAnnotations(), bm); len(bad) > 0 {
 			report("hygiene", "C07/hygiene/output", fmt.Sprintf("output document %d carries internal annotations %v (buildMetadata %v)", i, bad, km.BuildMetadata))
 		}
 		for k := range x.GetAnnotations() {
@@ -630,7 +630,7 @@ func checkBuild07(r *Run, t tree07, verbose bool) string {
 		}
 	}
 	// --- O4 the emitted YAML parses back to the same objects
-	docs := splitDocs(out)
+	docs := c07SplitDocs(out)
 	if len(docs) != len(rs) {
 		report("reparse", "C07/reparse/doc-count", fmt.Sprintf("%d resources but the stream splits into %d documents", len(rs), len(docs)))
 	} else {
@@ -641,8 +641,8 @@ func checkBuild07(r *Run, t tree07, verbose bool) string {
 				report("reparse", "C07/reparse/error", fmt.Sprintf("document %d: marshal error %v / parse error %v", i, err1, err2))
 				continue
 			}
-			a, e1 := canonJSON(want)
-			b, e2 := canonJSON(got)
+			a, e1 := c07CanonJSON(want)
+			b, e2 := c07CanonJSON(got)
 			if e1 != nil || e2 != nil || !reflect.DeepEqual(a, b) {
 				report("reparse", "C07/reparse/differs", fmt.Sprintf("document %d parses back to a different object:\n object: %s\n parsed: %s", i, want, got))
 			}
@@ -667,13 +667,13 @@ func checkBuild07(r *Run, t tree07, verbose bool) string {
 			case "option-legacy":
 				reorder2 = "legacy"
 			}
-			m2, cls2, msg2 := runKrusty(map[string]string{"/again/kustomization.yaml": k2, "/again/out.yaml": string(out)}, "/again", reorder2)
+			m2, cls2, msg2 := c07RunKrusty(map[string]string{"/again/kustomization.yaml": k2, "/again/out.yaml": string(out)}, "/again", reorder2)
 			r.Count("second_build", v+"/"+cls2)
 			if cls2 != ClsOk {
 				if dupLocal {
-					report("fixpoint", "C07/ids_unique/unsorted-localconfig-hash-collision", "second build of an output with a duplicated id fails: "+firstLine(msg2))
+					report("fixpoint", "C07/ids_unique/unsorted-localconfig-hash-collision", "second build of an output with a duplicated id fails: "+c07FirstLine(msg2))
 				} else {
-					report("fixpoint", "C07/fixpoint/second-build-"+strings.ToLower(strings.TrimPrefix(cls2, "C")), fmt.Sprintf("second build (%s) failed: %s", v, firstLine(msg2)))
+					report("fixpoint", "C07/fixpoint/second-build-"+strings.ToLower(strings.TrimPrefix(cls2, "C")), fmt.Sprintf("second build (%s) failed: %s", v, c07FirstLine(msg2)))
 				}
 				continue
 			}
@@ -683,14 +683,14 @@ func checkBuild07(r *Run, t tree07, verbose bool) string {
 				if dupLocal {
 					cls = "C07/ids_unique/unsorted-localconfig-hash-collision"
 				}
-				report("fixpoint", cls, fmt.Sprintf("second build (%s) is not byte-identical:\n%s", v, firstDiff(out, out2)))
+				report("fixpoint", cls, fmt.Sprintf("second build (%s) is not byte-identical:\n%s", v, c07FirstDiff(out, out2)))
 			}
 		}
 	}
 	return log.String()
 }
 
-func firstLine(s string) string {
+func c07FirstLine(s string) string {
 	if i := strings.IndexByte(s, '\n'); i >= 0 {
 		s = s[:i]
 	}
@@ -700,7 +700,7 @@ func firstLine(s string) string {
 	return s
 }
 
-func errKind(msg string) string {
+func c07ErrKind(msg string) string {
 	for _, k := range []string{"already registered id", "no matches for Id", "multiple matches", "does not exist; cannot merge or replace",
 		"behavior must be merge or replace", "ID conflict", "failed to find unique target", "no resource matches strategic merge patch",
 		"unable to find", "missing metadata.name", "missing kind", "found multiple objects", "add operation does not apply", "conflict"} {
@@ -708,10 +708,10 @@ func errKind(msg string) string {
 			return k
 		}
 	}
-	return firstLine(msg)
+	return c07FirstLine(msg)
 }
 
-func bucket(n int) string {
+func c07Bucket(n int) string {
 	switch {
 	case n == 0:
 		return "0"
@@ -725,7 +725,7 @@ func bucket(n int) string {
 	return ">10"
 }
 
-func firstDiff(a, b []byte) string {
+func c07FirstDiff(a, b []byte) string {
 	la, lb := strings.Split(string(a), "\n"), strings.Split(string(b), "\n")
 	for i := 0; i < len(la) || i < len(lb); i++ {
 		x, y := "<eof>", "<eof>"
@@ -744,11 +744,11 @@ func firstDiff(a, b []byte) string {
 
 // ---------- adversarial: collide with a hashed generator name ----------
 
-// hashCollisionTree builds the tree once, picks a generated (hash-suffixed) ConfigMap/Secret of the output and adds a
+// c07HashCollisionTree builds the tree once, picks a generated (hash-suffixed) ConfigMap/Secret of the output and adds a
 // resource file to the top layer that already carries that final name — plain or marked local-config.
-func hashCollisionTree(rng *Rng) (tree07, bool) {
+func c07HashCollisionTree(rng *Rng) (tree07, bool) {
 	t := genTree07(rng)
-	m, cls, _ := runKrusty(t.Files, t.Dir, t.Reorder)
+	m, cls, _ := c07RunKrusty(t.Files, t.Dir, t.Reorder)
 	if cls != ClsOk {
 		return t, false
 	}
@@ -817,7 +817,7 @@ func runBuilds07(r *Run, rng *Rng, corp corpus07, n int, tier string) error {
 	for i := 0; i < n; i++ {
 		g := rng.Fork()
 		if i%8 == 7 {
-			if t, ok := hashCollisionTree(g); ok {
+			if t, ok := c07HashCollisionTree(g); ok {
 				r.Count("build_kind", "hash-collision")
 				checkBuild07(r, t, false)
 				continue
